@@ -178,6 +178,91 @@ class HistGen:
         op["sem"]["malformed_gen"] = True
         return op, (self.sim_quote(p, named, named_amt) if named in p.assets else [])
 
+    # -- exhaustive walks (finite spaces enumerated per sampled world state) ---------------------------------
+    FUNDS_MODES = ["exact", "less", "more", "absent", "extra", "other_only", "lookalike"]
+    AMT_MODES = ["eq", "less", "more", "zero_named"]
+
+    def swap_cell(self, p, actor, entry, named, amt_mode, how, base, to=None):
+        """one cell of the swap cross product, built deterministically. `how` = funds mode (direct) or the delivered
+        token (hook). Returns (op, quotes) or None when the cell does not exist in this world."""
+        w = self.w
+        named_amt = {"eq": base, "less": max(0, base - 1), "more": base + 1, "zero_named": 0}[amt_mode]
+        cell = [entry, amt_mode]
+        if entry == "hook":
+            delivered = how
+            if w.ledger.get(actor, delivered[1]) < base:
+                return None
+            cell.append("deliv=" + ("named" if delivered == named else ("pairtok" if delivered in p.assets else "foreign")))
+            op = w.op_swap_raw(actor, p, "hook", named, named_amt, delivered, base, to=to)
+        else:
+            nat = named if named[0] == "n" else None
+            others = [a for a in w.natives if a != nat]
+            funds = []
+            if how == "exact":
+                funds = [[nat[1], str(base)]] if nat else []
+            elif how == "less":
+                funds = [[nat[1], str(base - 1)]] if (nat and base > 1) else []
+            elif how == "more":
+                funds = [[nat[1], str(base + 1)]] if nat else []
+            elif how == "absent":
+                funds = []
+            elif how == "extra":
+                if not others:
+                    return None
+                funds = ([[nat[1], str(base)]] if nat else []) + [[others[0][1], str(base)]]
+            elif how == "other_only":
+                if not others:
+                    return None
+                funds = [[others[-1][1], str(base)]]
+            elif how == "lookalike":
+                if not (nat and nat[1] in w.lookalikes):
+                    return None
+                funds = [[w.lookalikes[nat[1]], str(base)]]
+            if any(w.ledger.get(actor, w.denom_key(d)) < int(a) for d, a in funds):
+                return None
+            cell.append("funds=" + how)
+            op = w.op_swap_raw(actor, p, "direct", named, named_amt, None, 0, to=to, funds_override=sorted(funds))
+        cell.append("named=" + ("a%d" % p.idx(named) if named in p.assets else ("rogue" if named[1] == w.rogue else "foreign")))
+        op["sem"]["cell"] = "/".join(cell)
+        op["sem"]["malformed_gen"] = True
+        op["sem"]["walk"] = True
+        return op, (self.sim_quote(p, named, named_amt) if named in p.assets else [])
+
+    def walk_swap_cells(self, p):
+        """every cell of (entry) x (asset named) x (amount named) x (funds | token delivered) for one pair"""
+        w = self.w
+        led = w.ledger
+        foreign = [a for a in w.all_assets() if a not in p.assets][:1]
+        names = [p.assets[0], p.assets[1]] + foreign + [("t", w.rogue)]
+        deliverables = [a for a in p.assets if a[0] == "t"] + [a for a in w.tokens if a not in p.assets][:1] + [("t", w.rogue)]
+        for named in names:
+            ni = p.idx(named) if named in p.assets else 0
+            r = p.reserves(led)[ni]
+            base = max(2, min(r // 7 + 3, 1 << 100))
+            for amt_mode in self.AMT_MODES:
+                for fm in self.FUNDS_MODES:
+                    c = self.swap_cell(p, "attacker", "direct", named, amt_mode, fm, base, to=None)
+                    if c:
+                        yield c
+                for dv in deliverables:
+                    c = self.swap_cell(p, "attacker", "hook", named, amt_mode, dv, base, to=None)
+                    if c:
+                        yield c
+
+    def walk_paths(self):
+        """every route of the pair graph (simple paths, cycles, routes revisiting their final asset), both well-formed"""
+        w = self.w
+        for k, hops in enumerate(self.paths()):
+            first = w.pair_for(*hops[0])
+            x = first.reserves(w.ledger)[first.idx(hops[0][0])]
+            amount = max(1, x // 50 + 1)
+            actor = "trader1" if k % 2 else "trader2"
+            if w.ledger.get(actor, hops[0][0][1]) < amount:
+                continue
+            op = w.op_route(actor, hops, amount, minimum_receive=None, to=("recv" if k % 3 else None))
+            op["sem"]["walk"] = True
+            yield op, [w.q_route_sim(hops, amount)]
+
     def g_provide(self, first=False):
         w, rng = self.w, self.rng
         led = w.ledger
